@@ -1055,76 +1055,88 @@ func streamPage(w *casefile.Writer, r *rng.R, rounds, docsPerRound, queries int)
 					order = seq.DocsOrderAsc
 				}
 				in := map[string]any{"kind": kind, "size": size, "offset": offset, "order": int(order), "stored": batchStrings(docs), "sealed": qi >= queries/2}
-				qpr, plain, _, err := c.env.Search("*", size, setup.WithOffset(offset), setup.WithOrder(order))
+				via := []string{"page-search", "page-documents", "page-store-fetch"}[r.Intn(3)]
+				q := "*" + pipeText(r, fields, allow)
+				in["via"] = via
+				if via == "page-search" {
+					in["query"] = q
+				}
+				plain, got, err := c.observe(via, q, fields, allow, size, offset, order)
 				if err != nil {
-					w.Violate("page:search-error", "unfiltered search failed: "+err.Error(), in)
+					w.Violate("page:error", err.Error(), in)
 					continue
 				}
-				switch r.Intn(3) {
-				case 0: // search through the proxy with the pipe in the query text
-					q := "*" + pipeText(r, fields, allow)
-					in["query"] = q
-					_, got, _, err := c.env.Search(q, size, setup.WithOffset(offset), setup.WithOrder(order))
-					if err != nil {
-						w.Violate("page:search-error", "search with fields pipe failed: "+err.Error(), in)
-						continue
-					}
-					pageCase(w, "page-search", plain, got, fields, allow, in)
-				case 1: // proxy fetch with a field filter
-					idl := make([]seq.ID, len(qpr.IDs))
-					for i, s := range qpr.IDs {
-						idl[i] = s.ID
-					}
-					ctx, cancel := context.WithCancel(context.Background())
-					s0, err0 := c.env.Ingestor().SearchIngestor.Documents(ctx, search.FetchRequest{IDs: idl})
-					s1, err1 := c.env.Ingestor().SearchIngestor.Documents(ctx, search.FetchRequest{IDs: idl,
-						FieldsFilter: search.FetchFieldsFilter{Fields: fields, AllowList: allow}})
-					if err0 != nil || err1 != nil {
-						cancel()
-						w.Violate("page:fetch-error", fmt.Sprintf("proxy fetch failed: %v / %v", err0, err1), in)
-						continue
-					}
-					a, b := search.ReadAll(s0), search.ReadAll(s1)
-					cancel()
-					pageCase(w, "page-documents", a, b, fields, allow, in)
-				default: // Fetch on the store
-					strs := make([]string, len(qpr.IDs))
-					for i, s := range qpr.IDs {
-						strs[i] = s.ID.String()
-					}
-					cl := storeapi.NewClient(c.env.Store(true))
-					fetch := func(ff *pstoreapi.FetchRequest_FieldsFilter) ([][]byte, error) {
-						st, err := cl.Fetch(context.Background(), &pstoreapi.FetchRequest{Ids: strs, FieldsFilter: ff})
-						if err != nil {
-							return nil, err
-						}
-						var out [][]byte
-						for {
-							d, err := st.Recv()
-							if err == io.EOF {
-								return out, nil
-							}
-							if err != nil {
-								return nil, err
-							}
-							blk := disk.DocBlock(d.Data)
-							var p []byte
-							if blk.Len() > 0 {
-								p = append([]byte{}, blk.Payload()...)
-							}
-							out = append(out, p)
-						}
-					}
-					a, err0 := fetch(nil)
-					b, err1 := fetch(&pstoreapi.FetchRequest_FieldsFilter{Fields: fields, AllowList: allow})
-					if err0 != nil || err1 != nil {
-						w.Violate("page:fetch-error", fmt.Sprintf("store fetch failed: %v / %v", err0, err1), in)
-						continue
-					}
-					pageCase(w, "page-store-fetch", a, b, fields, allow, in)
-				}
+				pageCase(w, via, plain, got, fields, allow, in)
 			}
 		}()
+	}
+}
+
+// observe returns the documents of the unfiltered run and of the filtered run, each in its order.
+//
+//	page-search       Ingestor.Search("*") vs Ingestor.Search("* | fields ...")
+//	page-documents    Ingestor.Documents(ids) vs Ingestor.Documents(ids, FieldsFilter)   (ids of the unfiltered search)
+//	page-store-fetch  GrpcV1.Fetch(ids) vs GrpcV1.Fetch(ids, FieldsFilter) on the store
+func (c *cluster) observe(via, q string, fields []string, allow bool, size, offset int, order seq.DocsOrder) ([][]byte, [][]byte, error) {
+	qpr, plain, _, err := c.env.Search("*", size, setup.WithOffset(offset), setup.WithOrder(order))
+	if err != nil {
+		return nil, nil, fmt.Errorf("unfiltered search failed: %w", err)
+	}
+	switch via {
+	case "page-search":
+		_, got, _, err := c.env.Search(q, size, setup.WithOffset(offset), setup.WithOrder(order))
+		if err != nil {
+			return nil, nil, fmt.Errorf("search with fields pipe failed: %w", err)
+		}
+		return plain, got, nil
+	case "page-documents":
+		idl := make([]seq.ID, len(qpr.IDs))
+		for i, s := range qpr.IDs {
+			idl[i] = s.ID
+		}
+		ctx, cancel := context.WithCancel(context.Background())
+		defer cancel()
+		s0, err0 := c.env.Ingestor().SearchIngestor.Documents(ctx, search.FetchRequest{IDs: idl})
+		s1, err1 := c.env.Ingestor().SearchIngestor.Documents(ctx, search.FetchRequest{IDs: idl,
+			FieldsFilter: search.FetchFieldsFilter{Fields: fields, AllowList: allow}})
+		if err0 != nil || err1 != nil {
+			return nil, nil, fmt.Errorf("proxy fetch failed: %v / %v", err0, err1)
+		}
+		return search.ReadAll(s0), search.ReadAll(s1), nil
+	default:
+		strs := make([]string, len(qpr.IDs))
+		for i, s := range qpr.IDs {
+			strs[i] = s.ID.String()
+		}
+		cl := storeapi.NewClient(c.env.Store(true))
+		fetch := func(ff *pstoreapi.FetchRequest_FieldsFilter) ([][]byte, error) {
+			st, err := cl.Fetch(context.Background(), &pstoreapi.FetchRequest{Ids: strs, FieldsFilter: ff})
+			if err != nil {
+				return nil, err
+			}
+			var out [][]byte
+			for {
+				d, err := st.Recv()
+				if err == io.EOF {
+					return out, nil
+				}
+				if err != nil {
+					return nil, err
+				}
+				blk := disk.DocBlock(d.Data)
+				var p []byte
+				if blk.Len() > 0 {
+					p = append([]byte{}, blk.Payload()...)
+				}
+				out = append(out, p)
+			}
+		}
+		a, err0 := fetch(nil)
+		b, err1 := fetch(&pstoreapi.FetchRequest_FieldsFilter{Fields: fields, AllowList: allow})
+		if err0 != nil || err1 != nil {
+			return nil, nil, fmt.Errorf("store fetch failed: %v / %v", err0, err1)
+		}
+		return a, b, nil
 	}
 }
 
@@ -1231,16 +1243,36 @@ func doReplay(w *casefile.Writer, path string) {
 			}
 		}
 		filterBatch(w, docs, fields, allow, prefix, "replay")
-	case in["unfiltered"] != nil:
-		// a page: the per-document filter is re-run on the documents of the unfiltered run
-		docs := toDocs(in["unfiltered"])
-		g := runFilter(docs, fields, allow)
-		if g.out != nil {
-			for i := range docs {
-				fmt.Printf("replay filter fields=%q allow_list=%v\n  doc  %s\n  out  %s\n", fields, allow, docs[i], g.out[i])
-			}
-			pageCase(w, class, docs, g.out, fields, allow, map[string]any{"replayed": true})
+	case in["stored"] != nil:
+		// a page: rebuild the cluster with the stored documents and repeat the observation
+		// (document times must still be within the proxy's 24h drift window for the same order)
+		conf.UseSeqQLByDefault = true
+		c := startCluster()
+		defer c.stop()
+		if err := c.bulk(toDocs(in["stored"])); err != nil {
+			fmt.Println("replay: bulk failed:", err)
+			return
 		}
+		c.env.WaitIdle()
+		if sealed, _ := in["sealed"].(bool); sealed {
+			c.env.SealAll()
+		}
+		via, _ := in["via"].(string)
+		q, _ := in["query"].(string)
+		num := func(k string) int { f, _ := in[k].(float64); return int(f) }
+		plain, got, err := c.observe(via, q, fields, allow, num("size"), num("offset"), seq.DocsOrder(num("order")))
+		if err != nil {
+			fmt.Println("replay:", err)
+			return
+		}
+		for i := range plain {
+			g := "<missing>"
+			if i < len(got) {
+				g = string(got[i])
+			}
+			fmt.Printf("replay %s fields=%q allow_list=%v\n  unfiltered  %s\n  filtered    %s\n", via, fields, allow, plain[i], g)
+		}
+		pageCase(w, via, plain, got, fields, allow, map[string]any{"replayed": true, "via": via})
 	default:
 		fmt.Println("replay: unrecognised input")
 	}
